@@ -37,6 +37,7 @@ type Gen struct {
 	iterSrc []string
 	closed  bool
 	allowF5 bool // may change the store while a live batch holds a materialised DeleteRange
+	getw    bool // Get callbacks that write to the store (only when db/memory calls back outside its lock)
 }
 
 func (g *Gen) key() []byte    { return lib.Pick(g.r, keyAlphabet) }
@@ -151,6 +152,9 @@ func (g *Gen) Next() Op {
 		case 4:
 			return Op{K: "delrange", Key: g.bound(), End: g.bound()}
 		case 5:
+			if g.r.Bool() {
+				return Op{K: "psize", Key: g.prefix(), U: g.r.Bool()}
+			}
 			return Op{K: "scan", Src: "db", Key: nil, U: false}
 		case 6:
 			g.iters = append(g.iters, false)
@@ -192,11 +196,21 @@ func (g *Gen) Next() Op {
 			}
 			return Op{K: "delrange", Key: g.bound(), End: g.bound(), NilB: nb}
 		case c < 27:
+			if g.getw && g.r.Chance(1, 6) && (g.allowF5 || !g.pendingRange(-1)) {
+				src := g.src()
+				if src[0] == 's' {
+					src = "db"
+				}
+				return Op{K: "getw", Src: src, Key: g.key(), Key2: g.key(), Val: g.val()}
+			}
 			return Op{K: "get", Src: g.srcX(true), Key: g.key(), Fail: g.r.Chance(1, 6), NilB: nb}
 		case c < 31:
 			return Op{K: "has", Src: g.src(), Key: g.key(), NilB: nb}
 		case c < 38:
 			p, u := g.iterArgs()
+			if g.r.Chance(1, 8) {
+				return Op{K: "psize", Key: p, U: u, NilB: nb}
+			}
 			if g.r.Chance(1, 4) {
 				return Op{K: "rscan", Src: g.src(), Key: p, U: u, Key2: g.bound(), NilB: nb}
 			}
@@ -217,6 +231,9 @@ func (g *Gen) Next() Op {
 			return Op{K: "newbatch", Idx: idx, U: g.r.Chance(1, 4), Wrap: wrap}
 		case c < 55:
 			if b := g.liveBatch(false); b >= 0 {
+				if g.batches[b].buffer && g.r.Chance(1, 4) {
+					return Op{K: "bflush", H: b}
+				}
 				return Op{K: "bput", H: b, Key: g.key(), Val: g.val(), NilB: nb}
 			}
 		case c < 59:
@@ -229,6 +246,18 @@ func (g *Gen) Next() Op {
 				return Op{K: "bdelrange", H: b, Key: g.bound(), End: g.bound(), NilB: nb}
 			}
 		case c < 64:
+			// db.BufferBatch: Flush alone (the entries reach the wrapped batch, the map stays), and now
+			// and then one of the four methods that panic
+			if g.r.Chance(1, 2) {
+				for i, b := range g.batches {
+					if b.live && b.buffer {
+						src := fmt.Sprintf("b%d", i)
+						return lib.Pick(g.r, []Op{{K: "bflush", H: i}, {K: "bflush", H: i}, {K: "bflush", H: i}, {K: "bflush", H: i},
+							{K: "bsize", H: i}, {K: "bdelrange", H: i, Key: g.bound(), End: g.bound()},
+							{K: "has", Src: src, Key: g.key()}, {K: "scan", Src: src}})
+					}
+				}
+			}
 			if len(g.batches) > 0 {
 				if h := g.r.Intn(len(g.batches)); !g.batches[h].buffer {
 					return Op{K: "bsize", H: h}
@@ -319,8 +348,8 @@ func (g *Gen) Next() Op {
 }
 
 // Sequence generates one op sequence of the given length.
-func genSequence(r *lib.RNG, n int, allowF5, _ bool) []Op {
-	g := &Gen{r: r, allowF5: allowF5}
+func genSequence(r *lib.RNG, n int, allowF5, getw bool) []Op {
+	g := &Gen{r: r, allowF5: allowF5, getw: getw}
 	// start from a populated store most of the time
 	var ops []Op
 	for i, m := 0, r.Intn(7); i < m; i++ {
